@@ -311,6 +311,12 @@ func RunCell(c *Cell) (res *Result) {
 			if f := os.Getenv("SSL_CERT_FILE"); f != "" {
 				cmd.Env = append(cmd.Env, "SSL_CERT_FILE="+f) // the plugin shares the machine's trust store
 			}
+			if c.Host.AmbientInCmd {
+				// the application built the command's environment from its own (as a host that is itself a plugin does)
+				for k, v := range c.Ambient {
+					cmd.Env = append(cmd.Env, k+"="+v)
+				}
+			}
 		}
 		if c.Host.PresetStdin == "idle-pipe" {
 			pr, pw := io.Pipe()
